@@ -337,8 +337,11 @@ def processCase (cs : ConcCase) : CaseOut := Id.run do
   for b in cs.bad do out := out ++ [s!"BAD case={cs.id} {b}"]
   -- stress summary lines carry their own verdict
   if let some r := cs.stress then
-    if r.startsWith "ok" then return { out := out }
-    else return { out := out ++ [s!"MON C10 case={cs.id} line={cs.startLine} stress run on real threads: {r}"], mon := true }
+    -- the recycling verdict (C17) of the run is a separate token `c17:<what>` behind the C10 verdict
+    let c17 := (toks r).filter (·.startsWith "c17:")
+    let out17 := c17.map (fun w => s!"MON C17 case={cs.id} line={cs.startLine} stress run on real threads: {w}")
+    if r.startsWith "ok" then return { out := out ++ out17, mon := !c17.isEmpty }
+    else return { out := out ++ [s!"MON C10 case={cs.id} line={cs.startLine} stress run on real threads: {r}"] ++ out17, mon := true }
   if cs.aborted then
     return { out := out ++ [s!"MON C10 case={cs.id} line={cs.startLine} a call did not terminate within the tick limit"], mon := true }
   -- programs
@@ -417,6 +420,7 @@ def processCase (cs : ConcCase) : CaseOut := Id.run do
       diffLine := some s!"DIFF case={cs.id} line={n + 2} op=[maintain] impl=[{cs.maintain.getD "missing"}] model=[panic]"
   -- 3. the property monitor, on the implementation's transcript only
   let mut monLine : Option String := none
+  let mut mon17 : Option String := none
   if specOk then
     let mut m : MonSt := { live0 := spec.live, pending0 := spec.pending, seen0 := spec.seen, log := slog,
                            pushed := Array.replicate progs.size [] }
@@ -428,6 +432,18 @@ def processCase (cs : ConcCase) : CaseOut := Id.run do
         match monEv m (toks e) with
         | .ok m' => m := m'
         | .error why => monLine := some s!"MON C10 case={cs.id} line={evBase + i} {why} impl=[{e}]"
+    -- C17 (recycling) on the implementation's transcript alone. Nothing dies inside a shared-access phase
+    -- (deletions are deferred to `maintain`), so whatever occupied an index when a creation looked for one
+    -- still occupies it when the phase ends: a never-used index may have been taken only if every lower
+    -- index is occupied, at the end of the phase, by an entity alive at its start or created in it.
+    if monLine.isNone then
+      let used0 := m.seen0.foldl (fun a e => max a (e.id + 1)) 0
+      let occ := (m.live0 ++ m.created).map (·.id)
+      match m.created.find? (fun e => e.id ≥ used0 && !(List.range e.id).all (occ.contains ·)) with
+      | some e =>
+        let free := (List.range e.id).filter (!occ.contains ·)
+        mon17 := some s!"MON C17 case={cs.id} line={evBase + i} never-used index taken by {showEntity e} while lower indices {free} were free (occupied by no entity alive at the start of the phase or created in it)"
+      | none => pure ()
     if monLine.isNone then
       -- every call of every program must have completed
       let nCalls := progs.foldl (fun s p => s + p.length) 0
@@ -456,7 +472,8 @@ def processCase (cs : ConcCase) : CaseOut := Id.run do
                   | .ok () => pure ()
   if let some d := diffLine then out := out ++ [d]
   if let some m := monLine then out := out ++ [m]
-  return { out := out, diff := diffLine.isSome, mon := monLine.isSome,
+  if let some m := mon17 then out := out ++ [m]
+  return { out := out, diff := diffLine.isSome, mon := monLine.isSome || mon17.isSome,
            nontrivial := acc.switches > 0 && acc.pops > 0, acc := some acc }
 
 /-! ### Reading the transcript -/
